@@ -403,7 +403,7 @@ package postgres
 
 // Graceful shutdown deletes the stored data only when the operator asked for it (C06).
 //@ func (*PostgresStore).Stop
-//@ props C06 C01 C02 C03 C04 C05 C07 C08 C09 C10 C20
+//@ props C06 C01 C02 C03 C04 C05 C07 C08 C09 C10 C20 C17
 //@ nopanic C13
 // Stop itself deletes nothing and drops nothing: only Reset does, and only when configured
 //@ site call Remove assert false
